@@ -345,6 +345,12 @@
 #define SEXP_MAX_ANALYZE_DEPTH 8192
 #endif
 
+/* the reader refuses data nested deeper than this, instead of */
+/* overflowing the C stack */
+#ifndef SEXP_MAX_READ_DEPTH
+#define SEXP_MAX_READ_DEPTH 10000
+#endif
+
 /* The size of flexible arrays (empty arrays at the end of a struct */
 /* representing the trailing data), when compiled with C++.  Technically */
 /* 0 is an illegal value here, and the C++ idiom is to use 1, but this */
